@@ -15,7 +15,18 @@ import (
 func main() {
 	in := flag.String("scenarios", "", "JSON file with a list of scenarios (default: stdin)")
 	out := flag.String("out", "", "NDJSON output file (default: stdout)")
+	npk := flag.Int("pubkeys", 0, "print the public keys of the first n deterministic accounts as a JSON list and exit")
 	flag.Parse()
+	if *npk > 0 {
+		out, err := world.PubKeysHex(*npk)
+		if err != nil {
+			fmt.Fprintln(os.Stderr, err)
+			os.Exit(2)
+		}
+		b, _ := json.Marshal(out)
+		fmt.Println(string(b))
+		return
+	}
 	var data []byte
 	var err error
 	if *in == "" {
